@@ -87,6 +87,7 @@ type wstate struct {
 	held   []string
 	trace  []Event
 	thash  uint64
+	epoch  int // number of impure calls / lock operations so far (versions loads of mutable globals)
 }
 
 type Walker struct {
@@ -113,6 +114,7 @@ func (st *wstate) clone() *wstate {
 		held:  append([]string(nil), st.held...),
 		trace: append([]Event(nil), st.trace...),
 		thash: st.thash,
+		epoch: st.epoch,
 	}
 	for k, v := range st.store {
 		n.store[k] = v
@@ -416,6 +418,9 @@ func (w *Walker) canonD(st *wstate, fr *frame, v ssa.Value, d int) string {
 				if bv, ok := st.store[base]; ok {
 					return bv + "." + fieldName(fa.X.Type(), fa.Field)
 				}
+			}
+			if strings.HasPrefix(addr, "&global:") && w.P.MutableGlobal(addr[len("&global:"):]) && st.epoch > 0 {
+				return fmt.Sprintf("%s~e%d", simplifyDeref(addr), st.epoch)
 			}
 			return simplifyDeref(addr)
 		case token.NOT:
@@ -958,6 +963,7 @@ func (w *Walker) isLockCall(name string) (kind string) {
 }
 
 func (w *Walker) applyLock(st *wstate, kind, mu string) {
+	st.epoch++
 	switch kind {
 	case "lock", "rlock":
 		st.held = append(st.held, mu)
@@ -1053,6 +1059,10 @@ func (w *Walker) instrs(st *wstate, b *ssa.BasicBlock, from int) {
 		case *ssa.UnOp:
 			if in.Op == token.ARROW {
 				w.emit(st, Event{Kind: "recv", Instr: in, Addr: w.canon(st, fr, in.X), Block: true, Res: w.canon(st, fr, in)})
+			}
+			if in.Op == token.MUL {
+				// a load takes its value now, not when it is used
+				fr.env[in] = w.canon(st, fr, in)
 			}
 		case *ssa.Select:
 			var chans []string
@@ -1170,7 +1180,7 @@ func (w *Walker) call(st *wstate, b *ssa.BasicBlock, idx int, in *ssa.Call) bool
 	name, fn := w.staticCallee(st, fr, &in.Call)
 	args := w.callArgs(st, fr, &in.Call, 0)
 	if k := w.isLockCall(name); k != "" && len(args) > 0 {
-		w.emit(st, Event{Kind: k, Instr: in, Callee: name, Args: args, Addr: args[0]})
+		w.emit(st, Event{Kind: k, Instr: in, Callee: name, Args: args, Addr: args[0], Val: lockClass(in.Call.Args[0])})
 		w.applyLock(st, k, args[0])
 		return false
 	}
@@ -1187,6 +1197,7 @@ func (w *Walker) call(st *wstate, b *ssa.BasicBlock, idx int, in *ssa.Call) bool
 	w.emit(st, Event{Kind: "call", Instr: in, Callee: name, Args: args, Res: res, Inl: inline, Static: fn})
 	if !inline {
 		if !pureCallees[name] && !noHeapEffect[name] && !strings.HasPrefix(name, "builtin:") && !isLogCall(name) {
+			st.epoch++
 			for _, a := range in.Call.Args {
 				ac := w.canon(st, fr, a)
 				if strings.HasPrefix(ac, "&alloc:") {
@@ -1348,6 +1359,28 @@ func (w *Walker) captured(base string) bool {
 	visit(a, 0)
 	w.capt[a] = res
 	return res
+}
+
+// lockClass names a mutex by the type and field (or global) it lives in.
+func lockClass(v ssa.Value) string {
+	switch x := v.(type) {
+	case *ssa.FieldAddr:
+		t := x.X.Type()
+		if pt, ok := t.Underlying().(*types.Pointer); ok {
+			t = pt.Elem()
+		}
+		tn := typeShort(t)
+		if n, ok := t.(*types.Named); ok {
+			tn = n.Obj().Name()
+			if o := n.Origin(); o != nil {
+				tn = o.Obj().Name()
+			}
+		}
+		return tn + "." + fieldName(x.X.Type(), x.Field)
+	case *ssa.Global:
+		return "global " + x.Name()
+	}
+	return v.Name()
 }
 
 func isLogCall(name string) bool {
